@@ -336,6 +336,23 @@ def run(ctx, rep):
                         rv.append(g.prov_call(vi, d[1]))
             else:
                 rv.append(e)
+        # a value obtained with `?` from a helper whose Ok value comes out of a map / and_then chain
+        expanded = []
+        for e in rv:
+            cur, guard = [e], 0
+            while guard < 4 and any(isinstance(x, tuple) and x and x[0] == "okval" and isinstance(x[1], tuple) and x[1] and x[1][0] in ("ret", "call")
+                                    and _ok_values(g, P, x[1]) for x in cur):
+                nxt = []
+                for x in cur:
+                    if isinstance(x, tuple) and x and x[0] == "okval" and isinstance(x[1], tuple) and x[1] and x[1][0] in ("ret", "call"):
+                        vs = _ok_values(g, P, x[1])
+                        nxt += vs if vs else [x]
+                    else:
+                        nxt.append(x)
+                cur = nxt
+                guard += 1
+            expanded += cur
+        rv = expanded
         for e in rv:
             es = strip_ids(e)
             if not is_last_segment(es, lambda b: OFFS(b) and has_field(b, "open")):
@@ -383,9 +400,11 @@ def run(ctx, rep):
             end, start = es[2], es[3]
             end_ok = is_off(end, 1, lambda b: OFFS(b) and has_field(b, "open"))
             # unwrap_or(map(first_key_value(closed), |v| v.chunk.global_start()), open_start)
-            st_ok = call_is(start, r"Option::<T>::unwrap_or$") and \
-                contains(call_arg(start, 0), lambda x: call_is(x, r"BTreeMap::<K, V, A>::first_key_value$") and is_field(call_arg(x, 0), "closed")) and \
-                is_index(call_arg(start, 1), lambda b: OFFS(b) and has_field(b, "open"), 0)
+            first_closed = lambda z: contains(z, lambda x: call_is(x, r"BTreeMap::<K, V, A>::first_key_value$") and is_field(call_arg(x, 0), "closed"))
+            open_start = lambda z: is_index(z, lambda b: OFFS(b) and has_field(b, "open"), 0)
+            # unwrap_or(map(first_key_value(closed), |v| start of v), open_start)   or   map_or(first_key_value(closed), open_start, |v| start of v)
+            st_ok = (call_is(start, r"Option::<T>::unwrap_or$") and first_closed(call_arg(start, 0)) and open_start(call_arg(start, 1))) or \
+                    (call_is(start, r"Option::<T>::map_or$") and first_closed(call_arg(start, 0)) and open_start(call_arg(start, 1)))
             # the closure maps to the closed chunk's own start
             cl_ok = False
             for n, subs in g.closure_insts.items():
@@ -446,6 +465,14 @@ def _ok_values(g, P, e, depth=0):
         sub = g.callee_inst.get(e[3])
         if sub is not None:
             out += _ok_values_of_inst(g, P, sub, depth + 1)
+    elif e[0] == "call" and len(e) > 3 and re.search(r"result::Result::<T, E>::(map|and_then)$", str(e[1])) and e[2]:
+        # recv.map(|x| v) yields Ok(v); recv.and_then(|x| r) yields what r yields (both only when recv was Ok)
+        is_map = str(e[1]).endswith("::map")
+        for sub in g.closure_insts.get(e[3], []):
+            if is_map:
+                out.append(g.prov_local(sub, 0))
+            else:
+                out += _ok_values_of_inst(g, P, sub, depth + 1)
     elif e[0] == "call" and len(e) > 3 and re.search(r"iter::Iterator>?::try_fold$", str(e[1])) and len(e[2]) >= 2:
         out.append(e[2][1])                               # zero elements: the initial accumulator
         for sub in g.closure_insts.get(e[3], []):
